@@ -557,9 +557,27 @@ func runChain(r *harness.Run, c chainCase) error {
 	}
 	// VerifyAuthRulesAtState on the same target
 	for _, allowValidation := range []bool{true, false} {
-		for _, stateMode := range []string{"full", "without-auth-events", "empty"} {
+		for _, stateMode := range []string{"full", "without-auth-events", "empty", "without-last-auth-event/padded", "without-first-auth-event/padded", "full/padded", "without-last-auth-event/plain-repeats"} {
 			r.Eval()
 			sp := &stateProv{pdus: map[string]gmsl.PDU{}}
+			// the list of state IDs is a list, not a set: it may be long (IDs of events the provider then does not
+			// return) and may name an event twice; neither changes which events the state consists of
+			shape := ""
+			if i := strings.IndexByte(stateMode, '/'); i >= 0 {
+				stateMode, shape = stateMode[:i], stateMode[i+1:]
+			}
+			auth := target.AuthEventIDs()
+			skip := ""
+			switch stateMode {
+			case "without-last-auth-event":
+				if len(auth) > 0 {
+					skip = auth[len(auth)-1]
+				}
+			case "without-first-auth-event":
+				if len(auth) > 0 {
+					skip = auth[0]
+				}
+			}
 			for id, p := range pdus {
 				if id == target.EventID() || missing[id] {
 					continue
@@ -570,10 +588,20 @@ func runChain(r *harness.Run, c chainCase) error {
 						inAuth = true
 					}
 				}
-				if stateMode == "empty" || (stateMode == "without-auth-events" && inAuth) {
+				if stateMode == "empty" || (stateMode == "without-auth-events" && inAuth) || id == skip {
 					continue
 				}
 				sp.pdus[id] = p
+			}
+			if shape != "" {
+				for _, a := range auth {
+					if _, have := sp.pdus[a]; have {
+						sp.repeat = append(sp.repeat, a, a)
+					}
+				}
+				if shape == "padded" {
+					sp.pad = 70
+				}
 			}
 			var serr error
 			if p, msg := harness.Try(func() {
@@ -601,7 +629,11 @@ func runChain(r *harness.Run, c chainCase) error {
 	return nil
 }
 
-type stateProv struct{ pdus map[string]gmsl.PDU }
+type stateProv struct {
+	pdus   map[string]gmsl.PDU
+	repeat []string // IDs listed again
+	pad    int      // IDs of events the provider does not have
+}
 
 func (s *stateProv) StateIDsBeforeEvent(ctx context.Context, event gmsl.PDU) ([]string, error) {
 	var ids []string
@@ -609,6 +641,10 @@ func (s *stateProv) StateIDsBeforeEvent(ctx context.Context, event gmsl.PDU) ([]
 		ids = append(ids, id)
 	}
 	sort.Strings(ids)
+	ids = append(s.repeat[:len(s.repeat):len(s.repeat)], ids...)
+	for i := 0; i < s.pad; i++ {
+		ids = append(ids, fmt.Sprintf("$unknown%035d", i))
+	}
 	return ids, nil
 }
 func (s *stateProv) StateBeforeEvent(ctx context.Context, roomVer gmsl.RoomVersion, event gmsl.PDU, eventIDs []string) (map[string]gmsl.PDU, error) {
@@ -856,7 +892,7 @@ func (b *backfiller) ProvideEvents(v gmsl.RoomVersion, ids []string) ([]gmsl.PDU
 func main() { harness.Main("C14", "fault_enumeration", run) }
 
 func run(r *harness.Run) {
-	r.Rule("federation responses built from a generated room (create, creator join, power levels, join rules, two joins, a topic) with hash-derived event IDs and reference signatures, room versions 1 and 10: every single and every pair of per-event faults {bad signature, not allowed by its own auth events, auth event missing from the response, wrong room, no state key, duplicate state key, malformed JSON, listed in both lists, listed in both lists with a forged signature on one of the copies (same event ID, different bytes)} x event-provider behaviour {returns event, returns nothing, errors} through CheckStateResponse and CheckSendJoinResponse; send_join responses whose state forbids the join although the auth events the join cites (all part of that state) allow it; VerifyEventAuthChain (with a provider returning exactly the requested events, and one returning their whole auth chains) / VerifyAuthRulesAtState with a missing or disallowed event at every depth x state contents x allowValidation; LoadAndVerify / RequestBackfill on every batch of <= 3 inputs over events x {intact, bad signature, disallowed, malformed, listed twice}, batches of <= 2 intact events with a disallowed event one or more levels below them in the auth chain (served by the provider), and the same loader given a batch twice. Oracle recomputed per event from already-checked parts (VerifyEventSignatures, Allowed on an independently assembled auth set).")
+	r.Rule("federation responses built from a generated room (create, creator join, power levels, join rules, two joins, a topic) with hash-derived event IDs and reference signatures, room versions 1 and 10: every single and every pair of per-event faults {bad signature, not allowed by its own auth events, auth event missing from the response, wrong room, no state key, duplicate state key, malformed JSON, listed in both lists, listed in both lists with a forged signature on one of the copies (same event ID, different bytes)} x event-provider behaviour {returns event, returns nothing, errors} through CheckStateResponse and CheckSendJoinResponse; send_join responses whose state forbids the join although the auth events the join cites (all part of that state) allow it; VerifyEventAuthChain (with a provider returning exactly the requested events, and one returning their whole auth chains) / VerifyAuthRulesAtState with a missing or disallowed event at every depth x state contents (incl. lists of state IDs that are long and name events twice) x allowValidation; LoadAndVerify / RequestBackfill on every batch of <= 3 inputs over events x {intact, bad signature, disallowed, malformed, listed twice}, batches of <= 2 intact events with a disallowed event one or more levels below them in the auth chain (served by the provider), and the same loader given a batch twice. Oracle recomputed per event from already-checked parts (VerifyEventSignatures, Allowed on an independently assembled auth set).")
 	r.Assume("VerifyEventSignatures and Allowed are used as sub-oracles (their own properties are C06 / C07)", "RequestBackfill keeping events whose only failure is the signature check is documented library behaviour")
 	r.OnReplay("resp", func(raw json.RawMessage) error {
 		var c respCase
